@@ -3,6 +3,7 @@ CONSTANTS
   MaxSteps = 3
   MaxIdx = 3
   Watch = FALSE
+  Ms = FALSE
 INVARIANT NoGaps
 INVARIANT WellFormed
 INVARIANT AddressesDistinct
